@@ -447,24 +447,34 @@ func VerifC02_GetStatus() {
 
 // ---- the same decodings after an earlier call of the same operation (results depend on the current reply only)
 
-func c02Twice(earlier func(u *uhppote, id uint32), harness func()) {
+func c02Twice(earlier func(u *uhppote, id uint32) error, harness func()) {
 	c02Earlier = earlier
 	defer func() { c02Earlier = nil }()
 	harness()
 }
 
 func VerifC02_GetTimeProfileTwice() {
-	c02Twice(func(u *uhppote, id uint32) { u.GetTimeProfile(id, nondetU8("earlier.profile")) }, VerifC02_GetTimeProfile)
+	// one segment field at a time is arbitrary in the second reply, the other five are 00:00
+	c02Narrow = func(r []byte) {
+		k := nondetEnum("segment", 6)
+		for i := 0; i < 6; i++ {
+			if i != k {
+				verifAssume(r[24+2*i] == 0 && r[25+2*i] == 0)
+			}
+		}
+	}
+	defer func() { c02Narrow = nil }()
+	c02Twice(func(u *uhppote, id uint32) error { _, err := u.GetTimeProfile(id, nondetU8("earlier.profile")); return err }, VerifC02_GetTimeProfile)
 }
 func VerifC02_GetCardByIndexTwice() {
-	c02Twice(func(u *uhppote, id uint32) { u.GetCardByIndex(id, nondetU32("earlier.index")) }, VerifC02_GetCardByIndex)
+	c02Twice(func(u *uhppote, id uint32) error { _, err := u.GetCardByIndex(id, nondetU32("earlier.index")); return err }, VerifC02_GetCardByIndex)
 }
 func VerifC02_GetEventTwice() {
-	c02Twice(func(u *uhppote, id uint32) { u.GetEvent(id, nondetU32("earlier.index")) }, VerifC02_GetEvent)
+	c02Twice(func(u *uhppote, id uint32) error { _, err := u.GetEvent(id, nondetU32("earlier.index")); return err }, VerifC02_GetEvent)
 }
 func VerifC02_T_GetStatusTwice() {
-	c02Twice(func(u *uhppote, id uint32) { u.GetStatus(id) }, VerifC02_GetStatus)
+	c02Twice(func(u *uhppote, id uint32) error { _, err := u.GetStatus(id); return err }, VerifC02_GetStatus)
 }
 func VerifC02_T_GetDeviceTwice() {
-	c02Twice(func(u *uhppote, id uint32) { u.GetDevice(id) }, VerifC02_GetDevice)
+	c02Twice(func(u *uhppote, id uint32) error { _, err := u.GetDevice(id); return err }, VerifC02_GetDevice)
 }
